@@ -105,6 +105,16 @@ def mutated_cases(draw):
         data = R.ref_build(spec, value, params)
     except (R.Reject, R.ForeignError):
         data = b""
+    windows = [n for n in G.walk(spec) if n[0] in ("fixedsized", "padded") and isinstance(n[1], int) and not isinstance(n[1], bool) and n[1] > 0 and n[2][0] not in ("gbytes", "gstr", "nullstrip")]
+    if windows and draw(st.integers(0, 2)) == 0:
+        # the format's own mistake: a fixed window (FixedSized, Padded) declared smaller than what it holds. The member that runs
+        # out of bytes inside the window is the one that failed; data stays the (now over-long) canonical encoding
+        import copy
+        spec = copy.deepcopy(spec)
+        w = draw(st.sampled_from([n for n in G.walk(spec) if n[0] in ("fixedsized", "padded") and isinstance(n[1], int) and not isinstance(n[1], bool) and n[1] > 0
+                                  and n[2][0] not in ("gbytes", "gstr", "nullstrip")]))
+        w[1] = draw(st.integers(0, w[1] - 1))
+        return [spec, params, data if draw(st.booleans()) else draw(mutated(data, max_ops=1))]
     return [spec, params, draw(mutated(data, max_ops=2))]
 
 
@@ -127,7 +137,14 @@ def build_oracle(ctx):
         con = G.realise(spec)
         o = call(con.build, value, **params)
         ctx.record(case, len(expected) >= 1, ["build/" + reason, "build/depth=%d" % min(len(expected), 4)])
-        if o.ok or not isinstance(o.exc, C.ConstructError):
+        if o.ok:
+            return None
+        if not isinstance(o.exc, C.ConstructError):
+            # a value the field cannot hold (the reference refuses it for a typed reason) came back as a bare Python exception:
+            # nothing names the member then
+            if reason in ("out-of-range", "float-overflow", "wrong-length", "unknown-label", "not-an-integer", "not-a-number"):
+                return Failure("C18/building-path-missing/%s" % type(o.exc).__name__, "build of %s (reference rejects: %s) raised %r, which carries no path; expected %r | spec=%s params=%s" % (
+                    short(value), reason, o, fmt("building", expected), short(spec, 500), params))
             return None
         return check_path(ctx, "building", o.exc, expected, "build of %s (reference rejects: %s)" % (short(value), reason), spec, "params=%s" % params)
     return oracle
@@ -157,7 +174,7 @@ def invalid_cases_frag():
 
 
 def campaign_build(ctx):
-    ctx.search(build_cases(), build_oracle(ctx), ctx.budget(10000, 200000))
+    ctx.search(build_cases(), build_oracle(ctx), ctx.budget(24000, 300000))
 campaign_build.shards = (4, 16)
 
 
